@@ -218,6 +218,10 @@ func (bd *Backend) SendMetricsAsync(ctx context.Context, mm *gostatsd.MetricMap,
 	})
 
 	mm.Timers.Each(func(name, _ string, t gostatsd.Timer) {
+		if t.Histogram != nil && len(t.Histogram) == 0 {
+			// A histogram timer without buckets (timer-histogram-limit=0) is dropped, as in every other backend
+			return
+		}
 		if !t.Tags.Exists("host") && t.Source != "" {
 			t.Tags = t.Tags.Concat(gostatsd.Tags{"host:" + string(t.Source)})
 		}
